@@ -1042,6 +1042,22 @@ Fixpoint disp_run (next : dcfg -> result route -> dcfg) (cfg : dcfg) (frames : l
   end.
 
 (* ------------------------------------------------------------------ *)
+(* Admissible outcomes.  The property lets the code reject or ignore malformed input; where an implementation may
+   legitimately be stricter than /repo HEAD the model marks exactly those inputs "may ignore" and nothing wider:
+   a PPP-IPv6 (0x0057) frame whose Information field is not an IPv6 datagram (shorter than the 40-byte fixed header, or
+   version nibble not 6) may be handed to the host callback (HEAD) or dropped by the dispatcher.  A well-formed IPv6
+   datagram has exactly one admissible outcome. *)
+Definition ipv6_wellformed (p : bytes) : bool := (40 <=? lenN p) && (nth 0 p 0 / 16 =? 6).
+Definition frame_admissible (v : variant) (cfg : dcfg) (proto : N) (payload : bytes) (o : result route) : Prop :=
+  o = handle_frame v cfg proto payload \/ (proto = 87 /\ ipv6_wellformed payload = false /\ o = Ok RNone).
+(* sequences where every step takes any admissible outcome and the host state evolves from it *)
+Inductive adm_run (next : dcfg -> result route -> dcfg) : dcfg -> list (N * bytes) -> list (result route) -> Prop :=
+| adm_nil cfg : adm_run next cfg [] []
+| adm_cons cfg proto pl r o os :
+    frame_admissible Repaired cfg proto pl o -> adm_run next (next cfg o) r os ->
+    adm_run next cfg ((proto, pl) :: r) (o :: os).
+
+(* ------------------------------------------------------------------ *)
 (* Lock discipline of the PPPoE session's receive path (internal/pppoe/session.go, dhcpv6.go, ra.go; pkg/ppp/fsm.go): which
    mutexes each handler path takes, in which order, and where it may block.  sync.Mutex is not re-entrant. *)
 Inductive lock := LD     (* Component.sidMu: PPPoE session-id allocation (discovery stage) *)
@@ -1254,3 +1270,7 @@ Definition run (v : variant) (entry : N) (na : list N) (ba : list bytes) : resul
     rmap route_toks (l2tp_dispatch_ppp v (mk_dcfg (negb (arg 0 na =? 0)) (negb (arg 1 na =? 0)) (negb (arg 2 na =? 0))) b) else
   if entry =? 60 then (rmap (fun o => match o with None => [TNil] | Some (off, w) => [TN off; TB w] end) (attr80_window b)) else
   Err 99.
+
+(* alternative admissible lines for the driver (besides [run]): see [frame_admissible] *)
+Definition run_alts (entry : N) (na : list N) (ba : list bytes) : list (result (list tok)) :=
+  if (entry =? 2) && (arg 0 na =? 87) && negb (ipv6_wellformed (barg 0 ba)) then [Ok [TN 0]] else [].
